@@ -82,7 +82,8 @@ type Sim struct {
 	end                time.Time
 	locks              map[unsafe.Pointer]*lockState
 	pools              map[*sync.Pool][]any
-	poolOut map[any]struct{} // pooled objects (pointers) taken and not yet put back
+	poolOut            map[any]struct{} // pooled objects (pointers) taken and not yet put back
+	tsStarted          bool             // the code under test called utils.StartTimeStampUpdater
 	conds              map[unsafe.Pointer][]*Task
 	poison, poisonInit bool
 	schedSig           uint64
